@@ -51,6 +51,11 @@ type runT struct {
 	// types all present the one ssh host key, two ftp (smtp, ldap) instances the one ftp
 	// (smtp, ldap) certificate.
 	More []string `json:"more,omitempty"`
+	// Clients: how many clients observe each identity-bearing instance (and the agent
+	// listener) of a completed run. 0/1: one client per instance, one instance after the
+	// other. 2..6: that many clients per instance, all connected and taken to just before the
+	// step in which the server uses the identity, then released together (see Spec.Clients).
+	Clients int `json:"clients,omitempty"`
 	// Kill < 0: the run completes and its identity is observed. Kill >= 0: the starting
 	// process is SIGKILLed Kill/killSteps of the way through the estimated start-up time.
 	Kill int `json:"kill"`
@@ -183,10 +188,14 @@ func (c histCase) tokenLabel() string {
 
 // nontrivial: >=1 restart after a crash state (crash-state token file or killed start), or
 // a restart with a changed service set, or a restart after a start in which several service
-// instances shared one identity item.
+// instances shared one identity item, or a restart after a completed start whose identity
+// items were used by several concurrent clients at once.
 func (c histCase) nontrivial() bool {
 	for i, r := range c.Runs {
 		if i < len(c.Runs)-1 && len(r.shared()) > 0 {
+			return true
+		}
+		if i < len(c.Runs)-1 && !r.killed() && r.Clients >= 2 && len(r.enabled()) > 0 {
 			return true
 		}
 	}
@@ -467,7 +476,7 @@ func watchSiblings(dataDir string, stop chan struct{}, seen func(string), kill f
 // runChild starts one sensor process on dataDir and ends it as the plan says.
 func runChild(dataDir string, r runT, plan killPlan) childResult {
 	var res childResult
-	spec := Spec{DataDir: dataDir, SSH: r.SSH, FTP: r.FTP, SMTP: r.SMTP, LDAP: r.LDAP, Agent: r.Agent, More: r.More}
+	spec := Spec{DataDir: dataDir, SSH: r.SSH, FTP: r.FTP, SMTP: r.SMTP, LDAP: r.LDAP, Agent: r.Agent, More: r.More, Clients: r.Clients}
 	sj, _ := json.Marshal(spec)
 	pr, pw, err := os.Pipe()
 	if err != nil {
@@ -936,24 +945,30 @@ type seenT struct {
 	val string
 	run int
 	who string // the service instance that presented it
+	cl  string // "" or which of several concurrent clients of that instance saw it
+	att int    // 0, or 1 when it was seen in the repetition of a run whose first attempt failed
 }
 
 type seenMap = map[string]seenT
 
 // judge applies the oracle to one completed run. A run that did not come up or did not
-// present an enabled item is repeated once (that is one more restart of the same history);
-// only a reproduced failure counts.
+// present an enabled item (to every one of its clients) is repeated once (that is one more
+// restart of the same history); only a reproduced failure counts. What the clients of the
+// failed attempt WERE presented counts as presented all the same.
 func judge(v *verdict, c histCase, i int, r runT, res childResult, dataDir string, tainted bool, why string, known seenMap) (violation, infra string) {
 	ctx := fmt.Sprintf("run %d (services %s)", i, r.set())
+	if r.Clients >= 2 {
+		ctx = fmt.Sprintf("run %d (services %s, %d concurrent clients per service instance released together)", i, r.set(), r.Clients)
+	}
 	if tainted {
 		ctx += " after " + why
 	}
-	attempt := func(res childResult) (problem string, harness bool) {
+	attempt := func(res childResult) (problem string, harness bool, item string) {
 		if res.HarnessErr != "" {
-			return res.HarnessErr, true
+			return res.HarnessErr, true, ""
 		}
 		if res.Identity == nil {
-			return "the sensor did not come up: " + describe(res), false
+			return "the sensor did not come up: " + describe(res), false, ""
 		}
 		for _, o := range r.observed() {
 			if e, bad := res.Identity.Errs[o.Name]; bad {
@@ -962,28 +977,123 @@ func judge(v *verdict, c histCase, i int, r runT, res childResult, dataDir strin
 					// run (loopback sockets): the run simply does not observe it
 					continue
 				}
-				return fmt.Sprintf("enabled service %s (%s) presented no identity: %s", o.Name, o.Type, e), false
+				return fmt.Sprintf("enabled service %s (%s) presented no identity: %s", o.Name, o.Type, e), false, o.Item
 			}
 			if _, ok := res.Identity.Items[o.Name]; !ok {
-				return fmt.Sprintf("enabled service %s (%s) presented no identity", o.Name, o.Type), false
+				return fmt.Sprintf("enabled service %s (%s) presented no identity", o.Name, o.Type), false, o.Item
 			}
 		}
-		return "", false
+		return "", false, ""
 	}
-	problem, harness := attempt(res)
+	// Every client of every instance is compared with the first value anybody was presented
+	// for its item on this data directory ("the same as first generated"): that covers the
+	// same instance across runs, instances sharing one item within a run and across runs, and
+	// the concurrent clients of one instance. partial: the attempt failed somewhere - only
+	// what was presented is looked at.
+	sharedNow := map[string]bool{}
+	for _, it := range r.shared() {
+		sharedNow[it] = true
+	}
+	att := 0
+	presented := func(id *Identity, partial bool) string {
+		for _, o := range r.observed() {
+			it := o.Item
+			who := fmt.Sprintf("%s (%s)", o.Name, o.Type)
+			if e := id.Errs[o.Name]; strings.HasPrefix(e, "infra:") {
+				if !partial {
+					v.Labels = append(v.Labels, "unobservable:"+it)
+					v.Notes = append(v.Notes, fmt.Sprintf("%s: %s not observed: %s", ctx, who, trunc(e, 200)))
+				}
+				continue
+			}
+			type oneT struct{ val, cl string }
+			var vals []oneT
+			if obs, multi := id.Clients[o.Name]; multi {
+				for k, x := range obs {
+					if x.Err == "" {
+						vals = append(vals, oneT{x.V, fmt.Sprintf("client %d of %d", k+1, len(obs))})
+					}
+				}
+			} else if val, ok := id.Items[o.Name]; ok {
+				vals = append(vals, oneT{val, ""})
+			}
+			for _, x := range vals {
+				val := x.val
+				whoc := who
+				if x.cl != "" {
+					whoc = x.cl + " of " + who
+				}
+				if err := wellFormed(it, val); err != nil {
+					return fmt.Sprintf("%s: %s identity presented by %s is not well-formed: %v", ctx, it, whoc, err)
+				}
+				k, ok := known[it]
+				kwho := k.who
+				if k.cl != "" {
+					kwho = k.cl + " of " + k.who
+				}
+				switch {
+				case ok && k.val != val && k.run == i && k.att != att:
+					return fmt.Sprintf("%s, repeated once because an item was not presented: %s identity presented by %s is %s, but in the first attempt of this run %s was presented %s", ctx, it, whoc, short(val), kwho, short(k.val))
+				case ok && k.val != val && k.run == i && k.who == who:
+					return fmt.Sprintf("%s: %s identity presented to %s is %s, but %s, released from the same barrier in the same run, was presented %s: they cannot both be the one first generated on this data directory", ctx, it, whoc, short(val), kwho, short(k.val))
+				case ok && k.val != val && k.run == i:
+					return fmt.Sprintf("%s: %s identity presented by %s is %s, but %s, which shares the persisted %s identity, presented %s in the same run: they cannot both be the one first generated on this data directory", ctx, it, whoc, short(val), kwho, it, short(k.val))
+				case ok && k.val != val:
+					return fmt.Sprintf("%s: %s identity presented by %s is %s, but run %d on the same data directory presented %s (by %s)", ctx, it, whoc, short(val), k.run, short(k.val), kwho)
+				case !ok:
+					known[it] = seenT{val, i, who, x.cl, att}
+					if sharedNow[it] {
+						v.Labels = append(v.Labels, "shared-first-start:"+it)
+					}
+					if x.cl != "" {
+						v.Labels = append(v.Labels, "first-seen-by-concurrent-clients:"+it)
+					}
+				default:
+					if k.run != i {
+						v.Labels = append(v.Labels, "compared:"+it)
+					}
+					if k.who != who {
+						v.Labels = append(v.Labels, "compared-between-instances:"+it)
+					} else if k.run == i && k.att == att && k.cl != x.cl {
+						v.Labels = append(v.Labels, "compared-between-clients:"+it)
+					}
+				}
+			}
+		}
+		return ""
+	}
+	problem, harness, _ := attempt(res)
 	if problem != "" {
 		first := problem
+		knownBefore := len(known)
+		if !harness && res.Identity != nil {
+			if msg := presented(res.Identity, true); msg != "" {
+				return msg + " (moreover, in this run: " + trunc(first, 300) + ")", ""
+			}
+		}
+		var item string
+		att = 1
 		res = runChild(dataDir, r, noKill)
-		problem, harness = attempt(res)
+		problem, harness, item = attempt(res)
+		_, itemKnown := known[item]
 		if problem == "" {
 			v.Flaky = append(v.Flaky, fmt.Sprintf("%s: %s - not reproduced by an immediate further restart", ctx, trunc(first, 300)))
-		} else if harness || (!tainted && len(known) == 0) {
-			// the very first start of an undisturbed history: nothing to compare with, this
-			// is the harness / environment failing to observe, not an identity question
+		} else if harness || (!tainted && knownBefore == 0 && !itemKnown) {
+			// the very first start of an undisturbed history and nobody was ever presented
+			// this item: nothing to compare with, this is the harness / environment failing
+			// to observe, not an identity question
 			return "", fmt.Sprintf("%s: %s", ctx, problem)
 		} else {
 			// an earlier run of this history came up and presented its identity in this very
-			// environment (or the history contains a crash state): the restart lost it
+			// environment (or the history contains a crash state, or other clients of the
+			// first attempt of this run were presented this item): the restart lost it
+			if k, ok := known[item]; ok && item != "" {
+				kwho := k.who
+				if k.cl != "" {
+					kwho = k.cl + " of " + k.who
+				}
+				return fmt.Sprintf("%s: %s - reproduced by an immediate further restart (before it: %s), although %s was presented the %s identity %s in run %d on the same data directory: it is never presented again", ctx, problem, trunc(first, 300), kwho, item, short(k.val), k.run), ""
+			}
 			return fmt.Sprintf("%s: %s", ctx, problem), ""
 		}
 	}
@@ -1000,49 +1110,11 @@ func judge(v *verdict, c histCase, i int, r runT, res childResult, dataDir strin
 	if k, ok := known["token"]; ok && k.val != tok {
 		return fmt.Sprintf("%s: token on events is %q, but run %d on the same data directory had %q", ctx, tok, k.run, k.val), ""
 	} else if !ok {
-		known["token"] = seenT{tok, i, "events"}
+		known["token"] = seenT{tok, i, "events", "", att}
 	} else {
 		v.Labels = append(v.Labels, "compared:token")
 	}
-	// Every instance is compared with the first value any instance presented for its item
-	// on this data directory ("the same as first generated"): that covers the same instance
-	// across runs, and instances sharing one item within a run and across runs.
-	sharedNow := map[string]bool{}
-	for _, it := range r.shared() {
-		sharedNow[it] = true
-	}
-	for _, o := range r.observed() {
-		it := o.Item
-		who := fmt.Sprintf("%s (%s)", o.Name, o.Type)
-		if e := id.Errs[o.Name]; strings.HasPrefix(e, "infra:") {
-			v.Labels = append(v.Labels, "unobservable:"+it)
-			v.Notes = append(v.Notes, fmt.Sprintf("%s: %s not observed: %s", ctx, who, trunc(e, 200)))
-			continue
-		}
-		val := id.Items[o.Name]
-		if err := wellFormed(it, val); err != nil {
-			return fmt.Sprintf("%s: %s identity presented by %s is not well-formed: %v", ctx, it, who, err), ""
-		}
-		if k, ok := known[it]; ok && k.val != val {
-			if k.run == i {
-				return fmt.Sprintf("%s: %s identity presented by %s is %s, but %s, which shares the persisted %s identity, presented %s in the same run: they cannot both be the one first generated on this data directory", ctx, it, who, short(val), k.who, it, short(k.val)), ""
-			}
-			return fmt.Sprintf("%s: %s identity presented by %s is %s, but run %d on the same data directory presented %s (by %s)", ctx, it, who, short(val), k.run, short(k.val), k.who), ""
-		} else if !ok {
-			known[it] = seenT{val, i, who}
-			if sharedNow[it] {
-				v.Labels = append(v.Labels, "shared-first-start:"+it)
-			}
-		} else {
-			if k.run != i {
-				v.Labels = append(v.Labels, "compared:"+it)
-			}
-			if k.who != who {
-				v.Labels = append(v.Labels, "compared-between-instances:"+it)
-			}
-		}
-	}
-	return "", ""
+	return presented(id, false), ""
 }
 
 func trunc(s string, n int) string {
@@ -1073,6 +1145,12 @@ func genRun(rt *rapid.T, i int, last bool) runT {
 		for j := 0; j < n; j++ {
 			r.More = append(r.More, rapid.SampledFrom(moreTypes).Draw(rt, fmt.Sprintf("more%d.%d", i, j)))
 		}
+	}
+	// the observation schedule: one client per instance in turn, or 2..6 clients per instance
+	// whose first uses of the identity overlap (boundary-biased; more often in the first
+	// start, where whatever is created on first use still has to be created)
+	if p := rapid.IntRange(0, 9).Draw(rt, fmt.Sprintf("clientsp%d", i)); p < 3 || (i == 0 && p < 7) {
+		r.Clients = rapid.SampledFrom([]int{2, 2, 3, 4, 5, 6, 6}).Draw(rt, fmt.Sprintf("clients%d", i))
 	}
 	r.Kill = -1
 	if !last {
@@ -1130,6 +1208,13 @@ func account(r *vlib.Run, label string, c histCase, v verdict) {
 		for _, it := range x.shared() {
 			r.Label("svcset:shares-"+it, 1)
 		}
+		if !x.killed() {
+			n := x.Clients
+			if n < 1 {
+				n = 1
+			}
+			r.Label(fmt.Sprintf("clients-per-instance=%d", n), 1)
+		}
 		if i > 0 && x.set() != c.Runs[i-1].set() {
 			changed = true
 		}
@@ -1151,7 +1236,7 @@ func account(r *vlib.Run, label string, c histCase, v verdict) {
 	}
 }
 
-const ruleText = "every run of a history is a separate OS process running the real server on one data directory; histories of 2..5 runs with drawn service sets {ssh-simulator|ssh-auth|ssh-proxy|ssh-jail, ftp, smtp, ldap, agent listener, plus 0..3 further instances of these types in the same start - instances of the four ssh types share the ssh host key, instances of one TLS service type share its certificate}, initial token file absent / empty / proper prefix / complete, runs SIGKILLed at a delay on a 41-step grid from process boot to 1.2x the measured start-up time or after a chosen single store write (child frozen and inspected after every value-log change) or the moment a temporary file appears next to the token file; token-file crash states include planted temporary files under the implementation's own (discovered) temporary name; oracle: one well-formed token on all events, every service instance presents the token / host key / certificate / agent key that was presented first for that item on the data directory (same instance across runs, instances sharing an item within a run and across runs), a start after a crash state comes up well-formed; non-trivial = >=1 completed restart after a crash state (empty/prefix token file or a killed start) or a restart with a changed service set or a restart after a start in which >=2 instances shared an item; distinct by whole history"
+const ruleText = "every run of a history is a separate OS process running the real server on one data directory; histories of 2..5 runs with drawn service sets {ssh-simulator|ssh-auth|ssh-proxy|ssh-jail, ftp, smtp, ldap, agent listener, plus 0..3 further instances of these types in the same start - instances of the four ssh types share the ssh host key, instances of one TLS service type share its certificate}, observation schedule of a completed run: one client per service instance in turn, or 2..6 clients per instance (and per agent listener) all taken to just before the step that makes the server use the identity (TLS handshake after AUTH TLS / STARTTLS / LDAP StartTLS, SSH key exchange, Noise handshake) and released together from one barrier, initial token file absent / empty / proper prefix / complete, runs SIGKILLed at a delay on a 41-step grid from process boot to 1.2x the measured start-up time or after a chosen single store write (child frozen and inspected after every value-log change) or the moment a temporary file appears next to the token file; token-file crash states include planted temporary files under the implementation's own (discovered) temporary name; oracle: one well-formed token on all events, every service instance presents the token / host key / certificate / agent key that was presented first for that item on the data directory (same instance across runs, instances sharing an item within a run and across runs, every one of the concurrent clients of an instance; what some clients of a run were presented counts even when other clients of that run were refused), a start after a crash state comes up well-formed; non-trivial = >=1 completed restart after a crash state (empty/prefix token file or a killed start) or a restart with a changed service set or a restart after a start in which >=2 instances shared an item or whose items were used by >=2 concurrent clients; distinct by whole history"
 
 // ---------------------------------------------------------------- tests
 
@@ -1248,9 +1333,11 @@ func TestTokenFileStates(t *testing.T) {
 		}
 		a, b := cycle[i%len(cycle)], cycle[(i+1)%len(cycle)]
 		a.Kill, b.Kill = -1, -1
-		c.Runs = []runT{a, a}
+		a1 := a
+		a1.Clients = 1 + i%6 // the first start after the crash state is observed by 1..6 clients at once
+		c.Runs = []runT{a1, a}
 		if r.Thorough() {
-			c.Runs = []runT{a, b, a}
+			c.Runs = []runT{a1, b, a}
 		}
 		v := checkHistory(c)
 		if v.Infra != "" {
@@ -1317,7 +1404,9 @@ func TestKillSweep(t *testing.T) {
 		all := runT{SSH: sshType, FTP: true, SMTP: true, LDAP: true, Agent: true, Kill: -1}
 		killed := all
 		killed.Kill = k
-		c := histCase{TokenFile: "absent", Runs: []runT{killed, all, all}}
+		after := all
+		after.Clients = 1 + idx%6 // the first start after the kill is observed by 1..6 clients at once
+		c := histCase{TokenFile: "absent", Runs: []runT{killed, after, all}}
 		v := checkHistory(c)
 		if v.Infra != "" {
 			t.Fatalf("infra: %s", v.Infra)
@@ -1413,7 +1502,9 @@ func TestKillStates(t *testing.T) {
 				for attempt := 0; attempt < maxAttempts && !hit; attempt++ {
 					killed := sub.run
 					killed.KillRec = n
-					c := histCase{TokenFile: "absent", Runs: []runT{killed, sub.run, sub.run}}
+					after := sub.run
+					after.Clients = 1 + (idx+attempt)%6
+					c := histCase{TokenFile: "absent", Runs: []runT{killed, after, sub.run}}
 					v := checkHistory(c)
 					if v.Infra != "" {
 						t.Fatalf("infra: %s", v.Infra)
@@ -1645,9 +1736,11 @@ func TestSharedItems(t *testing.T) {
 			continue
 		}
 		p.both.Kill, p.a.Kill, p.b.Kill = -1, -1, -1
-		c := histCase{TokenFile: "absent", Runs: []runT{p.both, p.both}}
+		first := p.both
+		first.Clients = []int{1, 2, 3, 6}[(i+int(r.Seed/1000))%4] // also: several clients per sharing instance at once
+		c := histCase{TokenFile: "absent", Runs: []runT{first, p.both}}
 		if r.Thorough() {
-			c.Runs = []runT{p.both, p.a, p.b, p.both}
+			c.Runs = []runT{first, p.a, p.b, p.both}
 		}
 		v := checkHistory(c)
 		if v.Infra != "" {
@@ -1663,4 +1756,78 @@ func TestSharedItems(t *testing.T) {
 		}
 	}
 	r.Exhaustive("pairs of service types sharing one identity item in a first start: all 10 unordered pairs (with repetition) of {ssh-simulator, ssh-auth, ssh-proxy, ssh-jail}, ftp+ftp, smtp+smtp, ldap+ldap, and all of them at once")
+}
+
+// TestConcurrentFirstClients: the observation schedule, enumerated at small scope. An
+// identity item may be created when it is first USED rather than when the service is
+// constructed; "the same as first generated" then has to hold for every client of that first
+// use. For every identity-bearing service type alone (the four ssh types, ftp, smtp, ldap) and
+// the agent listener, and for n = 2..6, the very first start on a fresh data directory is
+// observed by n clients whose first uses of the identity overlap (all connected and taken to
+// just before the TLS / SSH / Noise handshake, then released from one barrier); the next
+// start is observed by two concurrent clients, a third one (thorough tier) by one. Every
+// client of every run must be presented the same, well-formed item.
+func TestConcurrentFirstClients(t *testing.T) {
+	r := vlib.Open(prop)
+	r.Rule(ruleText)
+	var c histCase
+	if vlib.ReplayCase("TestConcurrentFirstClients", &c) {
+		v := checkHistory(c)
+		if v.Infra != "" {
+			t.Fatalf("infra: %s", v.Infra)
+		}
+		if v.Violation != "" {
+			r.Violation(t, "TestConcurrentFirstClients", v.Used, v.Violation)
+		}
+		return
+	}
+	if vlib.Replaying() {
+		return
+	}
+	type oneT struct {
+		name string
+		run  runT
+	}
+	var types []oneT
+	for _, st := range []string{"ssh-simulator", "ssh-auth", "ssh-proxy", "ssh-jail"} {
+		types = append(types, oneT{st, runT{SSH: st}})
+	}
+	types = append(types,
+		oneT{"ftp", runT{FTP: true}},
+		oneT{"smtp", runT{SMTP: true}},
+		oneT{"ldap", runT{LDAP: true}},
+		oneT{"agent", runT{Agent: true}},
+	)
+	counts := []int{2, 3, 4, 5, 6}
+	shard, shards := r.Shard()
+	failed := 0
+	idx := 0
+	for _, n := range counts {
+		for _, ty := range types {
+			idx++
+			if idx%shards != shard {
+				continue
+			}
+			first, second, third := ty.run, ty.run, ty.run
+			first.Kill, second.Kill, third.Kill = -1, -1, -1
+			first.Clients, second.Clients = n, 2
+			c := histCase{TokenFile: "absent", Runs: []runT{first, second}}
+			if r.Thorough() {
+				c.Runs = append(c.Runs, third)
+			}
+			v := checkHistory(c)
+			if v.Infra != "" {
+				t.Fatalf("infra: %s", v.Infra)
+			}
+			account(r, fmt.Sprintf("concurrent-first-clients/%s", ty.name), c, v)
+			if v.Violation != "" {
+				r.Violation(t, "TestConcurrentFirstClients", v.Used, v.Violation)
+				if failed++; failed >= maxReports {
+					t.Logf("stopping after %d violations", failed)
+					return
+				}
+			}
+		}
+	}
+	r.Exhaustive("observation schedules of a first start with one identity-bearing service: {ssh-simulator, ssh-auth, ssh-proxy, ssh-jail, ftp, smtp, ldap, agent listener} x {2, 3, 4, 5, 6} concurrent first clients")
 }
